@@ -170,8 +170,8 @@ def run_case(case):
     acc = Acc()
     r = rng(case['seed'], 'C12', case['i'])
     bin_size = r.choice([100, 250, 1000])
-    D = r.choice([0, 5, 40])
-    mfs = r.choice([max(D, 50), 300, 1000])
+    mfs = r.choice([50, 300, 1000])
+    D = r.choice([0, 5, 40, mfs])      # a site may be as far from its read as the fetch margin allows, in either direction
     min_mq = r.choice([0, 20, 50])
     contigs = [(f'chr{j + 1}', r.choice([2000, 5000, 12000]) + r.randint(0, bin_size)) for j in range(r.randint(1, 3))]
     cells = [f'LIB_{j}' for j in range(1, r.randint(1, 4) + 1)]
@@ -186,6 +186,8 @@ def run_case(case):
     on_boundary = 0
     sites_list = []
     for tid, (name, ln) in enumerate(contigs):
+        plan = []
+        rl = 30
         for _ in range(r.randint(10, 60)):
             if r.random() < 0.5:
                 b = r.choice(boundaries)
@@ -193,15 +195,28 @@ def run_case(case):
             else:
                 site = r.randrange(0, ln)
             site = min(max(site, 0), ln - 1)
-            rl = 30
             off = r.randint(-D, D) if D else 0
             pos = min(max(site + off, 0), ln - rl - 1)
+            plan.append((site, pos, False))
+        if D >= 12:
+            # around the end of a job's fetch window: a read that is fetched by the job although its site lies behind the window, directly
+            # followed (in coordinate order) by a read whose site lies inside the job - read order and site order differ
+            for _ in range(r.randint(1, 3)):
+                b = r.choice(boundaries)
+                e = b * r.randint(1, max(1, ln // b))
+                a_pos = e + mfs - r.randint(2, 11)
+                b_pos = a_pos + r.randint(0, 2)
+                if b_pos + rl + 1 < ln and a_pos + D < ln and b_pos - D >= 0:
+                    plan.append((a_pos + D, a_pos, True))
+                    plan.append((b_pos - D, b_pos, True))
+                    acc.count('lib:site_order_differs_from_read_order')
+        for site, pos, forced in plan:
             if abs(pos - site) > mfs:
                 continue
             cell = r.choice(cells)
-            mapq = r.choice([0, 19, 20, 49, 50, 60])
-            dup = r.random() < 0.25
-            qcf = r.random() < 0.1
+            mapq = r.choice([0, 19, 20, 49, 50, 60]) if not forced else 60
+            dup = r.random() < 0.25 and not forced
+            qcf = r.random() < 0.1 and not forced
             mp = r.choice([None, None, 'unique', 'bad', 'unknown'])
             da = r.choice([None, 'A', 'B'])
             kind = r.choice(['proper', 'proper', 'nonproper', 'single', 'r2only'])
